@@ -8,3 +8,4 @@ pub mod strings;
 pub mod schema;
 pub mod linecol;
 pub mod coerce;
+pub mod typesys;
